@@ -1,3 +1,5 @@
+//go:build !skip_c06c07_bundle
+
 package main
 
 // Shared driver of the bundle checks (C06, C07): runs histories of obtain / renew / manage /
@@ -31,40 +33,40 @@ import (
 	"verifharness/pkg/emit"
 )
 
-type bOutcome struct {
+type c06Outcome struct {
 	Up  bool  `json:"up"`
 	NB  int64 `json:"nb"`  // NotBefore = t0 + NB hours
 	Val int   `json:"val"` // 0 not due, 1 due (not expired), 2 expired
 }
-type bOracle struct {
-	Out  []bOutcome `json:"out"`
-	Perm []int      `json:"perm,omitempty"`
+type c06Oracle struct {
+	Out  []c06Outcome `json:"out"`
+	Perm []int        `json:"perm,omitempty"`
 }
-type bHop struct {
-	Op    string  `json:"op"` // obtain renew manage revenv revapi
-	Force bool    `json:"force,omitempty"`
-	I     int     `json:"i,omitempty"`
-	KC    bool    `json:"kc,omitempty"`
-	Orc   bOracle `json:"orc"`
+type c06Hop struct {
+	Op    string    `json:"op"` // obtain renew manage revenv revapi
+	Force bool      `json:"force,omitempty"`
+	I     int       `json:"i,omitempty"`
+	KC    bool      `json:"kc,omitempty"`
+	Orc   c06Oracle `json:"orc"`
 }
-type bCfg struct {
+type c06Cfg struct {
 	N       int    `json:"n"`
 	Reuse   bool   `json:"reuse"`
 	Rnd     bool   `json:"rnd"`
 	KeyType string `json:"keytype"`
 }
-type bSubject struct {
+type c06Subject struct {
 	Kind      string `json:"kind"`
 	Spelling  string `json:"spelling"`
 	Canonical string `json:"canonical"` // hand-written expectation: IDN-normalized, lower case, canonical IP
 }
-type bPlan struct {
+type c06Plan struct {
 	Fails []int `json:"fails,omitempty"`
 	From  int   `json:"from"`  // -1: none
 	Crash int   `json:"crash"` // -1: none
 }
 
-func (p *bPlan) fails(n int) bool {
+func (p *c06Plan) fails(n int) bool {
 	if p.From >= 0 && n >= p.From {
 		return true
 	}
@@ -76,38 +78,38 @@ func (p *bPlan) fails(n int) bool {
 	return false
 }
 
-type bSeen struct {
+type c06Seen struct {
 	Ser   int   `json:"ser"`
 	Key   int   `json:"key"`
 	Names []int `json:"names"`
 }
-type bEntry struct {
+type c06Entry struct {
 	I, D, K int
 	Val     []int64 // encoded fval
 	Text    string
 }
-type bObs struct {
+type c06Obs struct {
 	Res      int      `json:"res"`
-	Cached   *bSeen   `json:"cached,omitempty"`
+	Cached   *c06Seen `json:"cached,omitempty"`
 	ProbeRes int      `json:"probe_res"`
-	Probe    *bSeen   `json:"probe,omitempty"`
+	Probe    *c06Seen `json:"probe,omitempty"`
 	Log      []string `json:"log"`
 	St       []string `json:"storage"`
 	Err      string   `json:"err,omitempty"`
 	logEnc   [][]int64
-	stEnc    []bEntry
+	stEnc    []c06Entry
 }
 
-type bCrash struct{}
+type c06Crash struct{}
 
-var errInjected = errors.New("injected fault (harness)")
+var c06ErrInjected = errors.New("injected fault (harness)")
 
-type bWorld struct {
+type c06World struct {
 	b    *doubles.MemBackend
-	cfg  bCfg
-	subj bSubject
+	cfg  c06Cfg
+	subj c06Subject
 	cas  []*doubles.CA
-	iss  []*bIssuer
+	iss  []*c06Issuer
 	t0   time.Time
 	now  time.Time
 
@@ -118,33 +120,49 @@ type bWorld struct {
 	dirIDs    map[string]int
 	nameIDs   map[string]int
 	stapleSer map[string]int
-	orc       *bOracle
+	orc       *c06Oracle
 	inst      int
 	curInst   string
 
-	plan         *bPlan
+	plan         *c06Plan
 	cnt          int
 	crashPending bool
 	crashed      bool
 	dropped      map[int]bool
+
+	// sink receives the non-Storage events (issuer calls, key generations); nil = the memory
+	// double's log. onGenKey / onIssued: extra notifications used by the process-death driver.
+	sink     func(kind, key string)
+	onGenKey func(id int, digest string)
+	onIssued func(ser int, serial, stapleKey string)
 
 	sPre, sLoad, sSave, sID int
 	revoked                 map[int]bool // model serial -> revoked for key compromise?
 	oracleNotes             []string
 }
 
-var bIssuerKeys = []string{"ca-a", "ca-b", "ca-c", "ca-d"}
+var c06IssuerKeys = []string{"ca-a", "ca-b", "ca-c", "ca-d"}
 
-type bIssuer struct {
-	w   *bWorld
+type c06Issuer struct {
+	w   *c06World
 	idx int
 	key string
 	ca  *doubles.CA
 }
 
-func (i *bIssuer) IssuerKey() string { return i.key }
+func (i *c06Issuer) IssuerKey() string { return i.key }
 
-func bCSRNames(csr *x509.CertificateRequest) []string {
+// note records a non-Storage event of the current instance (this is also where a pending crash of
+// the memory double fires).
+func (w *c06World) note(kind, key string) {
+	if w.sink != nil {
+		w.sink(kind, key)
+		return
+	}
+	w.b.Log.Begin(doubles.Op{Inst: w.curInst, Kind: kind, Key: key})
+}
+
+func c06CSRNames(csr *x509.CertificateRequest) []string {
 	var names []string
 	names = append(names, csr.DNSNames...)
 	for _, ip := range csr.IPAddresses {
@@ -153,7 +171,7 @@ func bCSRNames(csr *x509.CertificateRequest) []string {
 	return names
 }
 
-func pubDigest(pub crypto.PublicKey) string {
+func c06PubDigest(pub crypto.PublicKey) string {
 	der, err := x509.MarshalPKIXPublicKey(pub)
 	if err != nil {
 		return "unmarshalable"
@@ -161,28 +179,28 @@ func pubDigest(pub crypto.PublicKey) string {
 	return doubles.Digest(der) + fmt.Sprint(len(der))
 }
 
-func (w *bWorld) keyID(pub crypto.PublicKey) int {
-	if id, ok := w.keyIDs[pubDigest(pub)]; ok {
+func (w *c06World) keyID(pub crypto.PublicKey) int {
+	if id, ok := w.keyIDs[c06PubDigest(pub)]; ok {
 		return id
 	}
 	return 999999
 }
 
-func (i *bIssuer) Issue(ctx context.Context, csr *x509.CertificateRequest) (*certmagic.IssuedCertificate, error) {
+func (i *c06Issuer) Issue(ctx context.Context, csr *x509.CertificateRequest) (*certmagic.IssuedCertificate, error) {
 	w := i.w
 	kid := w.keyID(csr.PublicKey)
-	out := bOutcome{}
+	out := c06Outcome{}
 	if w.orc != nil && i.idx < len(w.orc.Out) {
 		out = w.orc.Out[i.idx]
 	}
 	if !out.Up {
-		w.b.Log.Begin(doubles.Op{Inst: w.curInst, Kind: "IssueFail", Key: fmt.Sprintf("%d:%d", i.idx, kid)})
+		w.note("IssueFail", fmt.Sprintf("%d:%d", i.idx, kid))
 		return nil, certmagic.ErrNoRetry{Err: errors.New("issuer down (harness)")}
 	}
-	w.b.Log.Begin(doubles.Op{Inst: w.curInst, Kind: "IssueOK", Key: fmt.Sprintf("%d:%d", i.idx, kid)})
+	w.note("IssueOK", fmt.Sprintf("%d:%d", i.idx, kid))
 	ser := w.nextSer
 	w.nextSer++
-	names := bCSRNames(csr)
+	names := c06CSRNames(csr)
 	nb := w.t0.Add(time.Duration(out.NB) * time.Hour)
 	var na time.Time
 	switch out.Val {
@@ -201,41 +219,47 @@ func (i *bIssuer) Issue(ctx context.Context, csr *x509.CertificateRequest) (*cer
 	if len(names) > 0 {
 		sk := certmagic.StorageKeys.OCSPStaple(&certmagic.Certificate{Names: []string{strings.ToLower(names[0])}}, chain)
 		w.stapleSer[sk] = ser
+		if w.onIssued != nil {
+			w.onIssued(ser, leaf.SerialNumber.String(), sk)
+		}
 	}
 	return &certmagic.IssuedCertificate{Certificate: chain, Metadata: map[string]any{"harness_issuer": i.key, "n": ser}}, nil
 }
 
-func (i *bIssuer) Revoke(ctx context.Context, cert certmagic.CertificateResource, reason int) error {
+func (i *c06Issuer) Revoke(ctx context.Context, cert certmagic.CertificateResource, reason int) error {
 	return nil
 }
 
-type bKeyGen struct {
-	w   *bWorld
+type c06KeyGen struct {
+	w   *c06World
 	typ certmagic.KeyType
 }
 
-func (g *bKeyGen) GenerateKey() (crypto.PrivateKey, error) {
+func (g *c06KeyGen) GenerateKey() (crypto.PrivateKey, error) {
 	id := g.w.nextKey
 	// the log call is where a pending crash fires: nothing is generated after the process died
-	g.w.b.Log.Begin(doubles.Op{Inst: g.w.curInst, Kind: "GenKey", Key: strconv.Itoa(id)})
+	g.w.note("GenKey", strconv.Itoa(id))
 	k, err := certmagic.StandardKeyGenerator{KeyType: g.typ}.GenerateKey()
 	if err != nil {
 		return nil, err
 	}
 	g.w.nextKey++
-	g.w.keyIDs[pubDigest(k.(crypto.Signer).Public())] = id
+	g.w.keyIDs[c06PubDigest(k.(crypto.Signer).Public())] = id
+	if g.w.onGenKey != nil {
+		g.w.onGenKey(id, c06PubDigest(k.(crypto.Signer).Public()))
+	}
 	return k, nil
 }
 
-func newBWorld(cfg bCfg, subj bSubject) *bWorld {
+func c06NewWorld(cfg c06Cfg, subj c06Subject) *c06World {
 	now := time.Now().Truncate(time.Second)
-	w := &bWorld{b: doubles.NewMemBackend(), cfg: cfg, subj: subj, now: now, t0: now.Add(-3000 * time.Hour),
+	w := &c06World{b: doubles.NewMemBackend(), cfg: cfg, subj: subj, now: now, t0: now.Add(-3000 * time.Hour),
 		keyIDs: map[string]int{}, serIDs: map[string]int{}, dirIDs: map[string]int{}, nameIDs: map[string]int{},
 		stapleSer: map[string]int{}, dropped: map[int]bool{}, revoked: map[int]bool{}}
 	for i := 0; i < cfg.N; i++ {
-		ca := doubles.NewCA("harness CA " + bIssuerKeys[i])
+		ca := doubles.NewCA("harness CA " + c06IssuerKeys[i])
 		w.cas = append(w.cas, ca)
-		w.iss = append(w.iss, &bIssuer{w: w, idx: i, key: bIssuerKeys[i], ca: ca})
+		w.iss = append(w.iss, &c06Issuer{w: w, idx: i, key: c06IssuerKeys[i], ca: ca})
 	}
 	// the subject as the code sees it, computed with the real key builders
 	dirOf := func(name string) string {
@@ -258,7 +282,7 @@ func newBWorld(cfg bCfg, subj bSubject) *bWorld {
 	return w
 }
 
-func (w *bWorld) dirID(d string) int {
+func (w *c06World) dirID(d string) int {
 	if id, ok := w.dirIDs[d]; ok {
 		return id
 	}
@@ -266,7 +290,7 @@ func (w *bWorld) dirID(d string) int {
 	w.dirIDs[d] = id
 	return id
 }
-func (w *bWorld) nameID(n string) int {
+func (w *c06World) nameID(n string) int {
 	if id, ok := w.nameIDs[n]; ok {
 		return id
 	}
@@ -275,7 +299,7 @@ func (w *bWorld) nameID(n string) int {
 	return id
 }
 
-func countedKind(k string) bool {
+func c06CountedKind(k string) bool {
 	switch k {
 	case "Store", "Load", "Delete", "Exists", "Lock", "Unlock", "List", "Stat":
 		return true
@@ -284,7 +308,7 @@ func countedKind(k string) bool {
 }
 
 // hook: fault plan of the current (faulted) instance. Operation indices count Storage calls only.
-func (w *bWorld) hook(op *doubles.Op) error {
+func (w *c06World) hook(op *doubles.Op) error {
 	if w.plan == nil || op.Inst != w.curInst {
 		return nil
 	}
@@ -292,9 +316,9 @@ func (w *bWorld) hook(op *doubles.Op) error {
 		// the process is dead: this call never happened
 		w.crashed = true
 		w.dropped[op.Seq] = true
-		panic(bCrash{})
+		panic(c06Crash{})
 	}
-	if !countedKind(op.Kind) {
+	if !c06CountedKind(op.Kind) {
 		return nil
 	}
 	n := w.cnt
@@ -303,18 +327,18 @@ func (w *bWorld) hook(op *doubles.Op) error {
 		w.crashPending = true
 	}
 	if w.plan.fails(n) {
-		return errInjected
+		return c06ErrInjected
 	}
 	return nil
 }
 
-func (w *bWorld) newConfig(inst string, onDemand bool) (*certmagic.Config, *certmagic.Cache) {
+func (w *c06World) newConfig(inst string, onDemand bool) (*certmagic.Config, *certmagic.Cache) {
 	return w.newConfigOn(w.b.Handle(inst), onDemand)
 }
 
-func (w *bWorld) newConfigOn(st certmagic.Storage, onDemand bool) (*certmagic.Config, *certmagic.Cache) {
+func (w *c06World) newConfigOn(st certmagic.Storage, onDemand bool) (*certmagic.Config, *certmagic.Cache) {
 	tmpl := certmagic.Config{DisableARI: true, ReusePrivateKeys: w.cfg.Reuse,
-		KeySource: &bKeyGen{w: w, typ: certmagic.KeyType(w.cfg.KeyType)}}
+		KeySource: &c06KeyGen{w: w, typ: certmagic.KeyType(w.cfg.KeyType)}}
 	if w.cfg.Rnd {
 		tmpl.IssuerPolicy = certmagic.UseFirstRandomIssuer
 	}
@@ -328,7 +352,7 @@ func (w *bWorld) newConfigOn(st certmagic.Storage, onDemand bool) (*certmagic.Co
 	return doubles.NewConfig(st, tmpl, certmagic.CacheOptions{}, issuers...)
 }
 
-func bClassify(err error, dead bool) int {
+func c06Classify(err error, dead bool) int {
 	if dead {
 		return 6
 	}
@@ -349,8 +373,8 @@ func bClassify(err error, dead bool) int {
 	return 5
 }
 
-func (w *bWorld) seenOf(cert certmagic.Certificate) *bSeen {
-	s := &bSeen{Ser: 777777, Key: 999999}
+func (w *c06World) seenOf(cert certmagic.Certificate) *c06Seen {
+	s := &c06Seen{Ser: 777777, Key: 999999}
 	if cert.Leaf != nil {
 		if id, ok := w.serIDs[cert.Leaf.SerialNumber.String()]; ok {
 			s.Ser = id
@@ -366,17 +390,17 @@ func (w *bWorld) seenOf(cert certmagic.Certificate) *bSeen {
 }
 
 // probe: a fresh instance loads the bundle back with the requested spelling.
-func (w *bWorld) probe() (int, *bSeen, string) {
+func (w *c06World) probe() (int, *c06Seen, string) {
 	cfg, cache := w.newConfig("probe", false)
 	defer cache.Stop()
 	cert, err := cfg.CacheManagedCertificate(context.Background(), w.subj.Spelling)
 	if err != nil {
-		return bClassify(err, false), nil, err.Error()
+		return c06Classify(err, false), nil, err.Error()
 	}
 	return 0, w.seenOf(cert), ""
 }
 
-func (w *bWorld) revokeEnv(i int, kc bool) {
+func (w *c06World) revokeEnv(i int, kc bool) {
 	if i >= len(w.iss) {
 		return
 	}
@@ -413,7 +437,7 @@ func (w *bWorld) revokeEnv(i int, kc bool) {
 }
 
 // runHop executes one high-level operation on a fresh instance. plan != nil injects faults.
-func (w *bWorld) runHop(h bHop, plan *bPlan, doProbe bool) bObs {
+func (w *c06World) runHop(h c06Hop, plan *c06Plan, doProbe bool) c06Obs {
 	w.orc = &h.Orc
 	inst := fmt.Sprintf("i%d", w.inst)
 	w.inst++
@@ -429,7 +453,7 @@ func (w *bWorld) runHop(h bHop, plan *bPlan, doProbe bool) bObs {
 	func() {
 		defer func() {
 			if r := recover(); r != nil {
-				if _, ok := r.(bCrash); ok {
+				if _, ok := r.(c06Crash); ok {
 					dead = true
 					return
 				}
@@ -455,16 +479,16 @@ func (w *bWorld) runHop(h bHop, plan *bPlan, doProbe bool) bObs {
 		dead = true
 	}
 	w.plan = nil
-	o := bObs{Res: bClassify(err, dead)}
+	o := c06Obs{Res: c06Classify(err, dead)}
 	if err != nil {
 		o.Err = err.Error()
 	}
 	if h.Op == "manage" && err == nil && !dead {
-		certs := certmagic.VerifCachedCertificates(cache)
+		certs := certmagic.VerifBundleCachedCertificates(cache)
 		if len(certs) == 1 {
 			o.Cached = w.seenOf(certs[0])
 		} else {
-			o.Cached = &bSeen{Ser: 666666, Key: len(certs)}
+			o.Cached = &c06Seen{Ser: 666666, Key: len(certs)}
 		}
 	}
 	if doProbe {
@@ -476,13 +500,13 @@ func (w *bWorld) runHop(h bHop, plan *bPlan, doProbe bool) bObs {
 }
 
 // recoverLocks models the Locker's staleness rule after the holder died / failed to unlock.
-func (w *bWorld) breakLocks() {
+func (w *c06World) breakLocks() {
 	for _, l := range w.b.HeldLocks() {
 		w.b.BreakLock(l)
 	}
 }
 
-func (w *bWorld) target(key string) ([]int64, string) {
+func (w *c06World) target(key string) ([]int64, string) {
 	switch {
 	case strings.HasPrefix(key, "rw_test_"):
 		return []int64{2}, "test"
@@ -509,14 +533,14 @@ func (w *bWorld) target(key string) ([]int64, string) {
 		}
 		if len(parts) == 4 {
 			d := w.dirID(parts[2])
-			k := bFileKind(parts[2], parts[3])
+			k := c06FileKind(parts[2], parts[3])
 			return []int64{0, int64(ii), int64(d), int64(k)}, fmt.Sprintf("file(%d,%s,%s)", ii, parts[2], []string{"key", "crt", "json", "compromised", "?"}[min(k, 4)])
 		}
 	}
 	return []int64{9}, "unknown:" + key
 }
 
-func bFileKind(dir, file string) int {
+func c06FileKind(dir, file string) int {
 	switch file {
 	case dir + ".key":
 		return 0
@@ -530,54 +554,60 @@ func bFileKind(dir, file string) int {
 	return 7
 }
 
-func (w *bWorld) events(start int, inst string, o *bObs) {
+func (w *c06World) events(start int, inst string, o *c06Obs) {
 	ops := w.b.Log.Snapshot()
 	for _, op := range ops[start:] {
 		if op.Inst != inst || w.dropped[op.Seq] {
 			continue
 		}
-		switch op.Kind {
-		case "LockAcquired":
-			continue
-		case "IssueOK", "IssueFail":
-			var i, k int
-			fmt.Sscanf(op.Key, "%d:%d", &i, &k)
-			ok := int64(0)
-			if op.Kind == "IssueOK" {
-				ok = 1
-			}
-			o.logEnc = append(o.logEnc, []int64{1, int64(i), int64(k), ok})
-			o.Log = append(o.Log, fmt.Sprintf("%s issuer=%d key=%d", op.Kind, i, k))
-		case "GenKey":
-			k, _ := strconv.Atoi(op.Key)
-			o.logEnc = append(o.logEnc, []int64{2, int64(k)})
-			o.Log = append(o.Log, fmt.Sprintf("GenKey %d", k))
-		default:
-			kind := map[string]int64{"Store": 0, "Load": 1, "Delete": 2, "Exists": 3, "Lock": 4, "Unlock": 5}
-			kc, ok := kind[op.Kind]
-			if !ok {
-				kc = 9
-			}
-			tg, txt := w.target(op.Key)
-			ec := int64(0)
-			switch {
-			case op.Err == "":
-			case strings.Contains(op.Err, "injected fault"):
-				ec = 2
-			case strings.Contains(op.Err, "does not exist"):
-				ec = 1
-			default:
-				ec = 5
-			}
-			enc := append([]int64{0, kc}, tg...)
-			enc = append(enc, ec)
-			o.logEnc = append(o.logEnc, enc)
-			o.Log = append(o.Log, fmt.Sprintf("%s %s err=%d", op.Kind, txt, ec))
-		}
+		w.addEvent(o, op.Kind, op.Key, op.Err)
 	}
 }
 
-func (w *bWorld) valClass(na time.Time) int {
+// addEvent turns one logged event (Storage call with its error text, issuer call, key generation)
+// into the model's encoding.
+func (w *c06World) addEvent(o *c06Obs, opKind, opKey, opErr string) {
+	switch opKind {
+	case "LockAcquired":
+		return
+	case "IssueOK", "IssueFail":
+		var i, k int
+		fmt.Sscanf(opKey, "%d:%d", &i, &k)
+		ok := int64(0)
+		if opKind == "IssueOK" {
+			ok = 1
+		}
+		o.logEnc = append(o.logEnc, []int64{1, int64(i), int64(k), ok})
+		o.Log = append(o.Log, fmt.Sprintf("%s issuer=%d key=%d", opKind, i, k))
+	case "GenKey":
+		k, _ := strconv.Atoi(opKey)
+		o.logEnc = append(o.logEnc, []int64{2, int64(k)})
+		o.Log = append(o.Log, fmt.Sprintf("GenKey %d", k))
+	default:
+		kind := map[string]int64{"Store": 0, "Load": 1, "Delete": 2, "Exists": 3, "Lock": 4, "Unlock": 5}
+		kc, ok := kind[opKind]
+		if !ok {
+			kc = 9
+		}
+		tg, txt := w.target(opKey)
+		ec := int64(0)
+		switch {
+		case opErr == "":
+		case strings.Contains(opErr, "injected fault"):
+			ec = 2
+		case strings.Contains(opErr, "does not exist"):
+			ec = 1
+		default:
+			ec = 5
+		}
+		enc := append([]int64{0, kc}, tg...)
+		enc = append(enc, ec)
+		o.logEnc = append(o.logEnc, enc)
+		o.Log = append(o.Log, fmt.Sprintf("%s %s err=%d", opKind, txt, ec))
+	}
+}
+
+func (w *c06World) valClass(na time.Time) int {
 	d := na.Sub(w.now)
 	switch {
 	case d > 10000*time.Hour:
@@ -589,14 +619,18 @@ func (w *bWorld) valClass(na time.Time) int {
 }
 
 // snapshot decodes the raw storage contents (certificates/ namespace) with real crypto.
-func (w *bWorld) snapshot(o *bObs) {
-	for _, key := range w.b.Keys() {
+func (w *c06World) snapshot(o *c06Obs) {
+	w.snapshotFrom(o, w.b.Keys(), func(k string) []byte { v, _ := w.b.Get(k); return v })
+}
+
+func (w *c06World) snapshotFrom(o *c06Obs, keys []string, get func(string) []byte) {
+	for _, key := range keys {
 		if !strings.HasPrefix(key, "certificates/") {
 			continue
 		}
 		tg, txt := w.target(key)
-		data, _ := w.b.Get(key)
-		e := bEntry{I: 99, D: 99, K: 3, Val: []int64{0, 888888}, Text: txt}
+		data := get(key)
+		e := c06Entry{I: 99, D: 99, K: 3, Val: []int64{0, 888888}, Text: txt}
 		if len(tg) == 4 && tg[0] == 0 {
 			e.I, e.D, e.K = int(tg[1]), int(tg[2]), int(tg[3])
 			switch e.K {
@@ -659,11 +693,11 @@ func (w *bWorld) snapshot(o *bObs) {
 
 // ---- wire encoders (format of Bundle/Check.v) ----
 
-func encCfg(e *emit.Enc, c bCfg) { e.Int(c.N).Bool(c.Reuse).Bool(c.Rnd) }
-func (w *bWorld) encSubject(e *emit.Enc) {
+func c06EncCfg(e *emit.Enc, c c06Cfg) { e.Int(c.N).Bool(c.Reuse).Bool(c.Rnd) }
+func (w *c06World) encSubject(e *emit.Enc) {
 	e.Int(w.sPre).Int(w.sLoad).Int(w.sSave).Int(w.sID)
 }
-func encOracle(e *emit.Enc, o bOracle) {
+func c06EncOracle(e *emit.Enc, o c06Oracle) {
 	e.Len(len(o.Out))
 	for _, x := range o.Out {
 		if !x.Up {
@@ -677,7 +711,7 @@ func encOracle(e *emit.Enc, o bOracle) {
 		e.Int(p)
 	}
 }
-func encHop(e *emit.Enc, h bHop) {
+func c06EncHop(e *emit.Enc, h c06Hop) {
 	switch h.Op {
 	case "obtain":
 		e.Int(0)
@@ -691,7 +725,7 @@ func encHop(e *emit.Enc, h bHop) {
 		e.Int(4)
 	}
 }
-func encSeen(e *emit.Enc, s *bSeen) {
+func c06EncSeen(e *emit.Enc, s *c06Seen) {
 	if s == nil {
 		e.Bool(false)
 		return
@@ -701,7 +735,7 @@ func encSeen(e *emit.Enc, s *bSeen) {
 		e.Int(n)
 	}
 }
-func encStorage(e *emit.Enc, st []bEntry) {
+func c06EncStorage(e *emit.Enc, st []c06Entry) {
 	e.Len(len(st))
 	for _, x := range st {
 		e.Int(x.I).Int(x.D).Int(x.K)
@@ -710,23 +744,23 @@ func encStorage(e *emit.Enc, st []bEntry) {
 		}
 	}
 }
-func encObs(e *emit.Enc, o bObs) {
+func c06EncObs(e *emit.Enc, o c06Obs) {
 	e.Int(o.Res)
-	encSeen(e, o.Cached)
+	c06EncSeen(e, o.Cached)
 	e.Int(o.ProbeRes)
-	encSeen(e, o.Probe)
+	c06EncSeen(e, o.Probe)
 	e.Len(len(o.logEnc))
 	for _, ev := range o.logEnc {
 		for _, v := range ev {
 			e.Z(v)
 		}
 	}
-	encStorage(e, o.stEnc)
+	c06EncStorage(e, o.stEnc)
 }
 
-// completePerm fills in the order UseFirstRandomIssuer produced: the issuers that were tried, in
+// c06CompletePerm fills in the order UseFirstRandomIssuer produced: the issuers that were tried, in
 // the order observed, then the untried ones (their order cannot influence anything).
-func completePerm(n int, o bObs) []int {
+func c06CompletePerm(n int, o c06Obs) []int {
 	var perm []int
 	seen := map[int]bool{}
 	for _, ev := range o.logEnc {
@@ -743,7 +777,7 @@ func completePerm(n int, o bObs) []int {
 	return perm
 }
 
-var bSubjects = []bSubject{
+var c06Subjects = []c06Subject{
 	{"dns", "a.example", "a.example"},
 	{"wildcard", "*.w.example", "*.w.example"},
 	{"idn-unicode", "bücher.example", "xn--bcher-kva.example"},
@@ -754,8 +788,8 @@ var bSubjects = []bSubject{
 	{"mixed-case", "MiXed.Example", "mixed.example"},
 }
 
-// pemCodecOracle checks PEMDecodePrivateKey (PEMEncodePrivateKey k) = k on real keys of every type.
-func pemCodecOracle(types []string) emit.OracleCheck {
+// c06PemCodecOracle checks PEMDecodePrivateKey (PEMEncodePrivateKey k) = k on real keys of every type.
+func c06PemCodecOracle(types []string) emit.OracleCheck {
 	ok, det := true, ""
 	for _, t := range types {
 		k, err := certmagic.StandardKeyGenerator{KeyType: certmagic.KeyType(t)}.GenerateKey()
@@ -769,7 +803,7 @@ func pemCodecOracle(types []string) emit.OracleCheck {
 			continue
 		}
 		k2, err := certmagic.PEMDecodePrivateKey(p)
-		if err != nil || pubDigest(k2.Public()) != pubDigest(k.(crypto.Signer).Public()) {
+		if err != nil || c06PubDigest(k2.Public()) != c06PubDigest(k.(crypto.Signer).Public()) {
 			ok, det = false, det+t+": round trip differs; "
 			continue
 		}
